@@ -43,7 +43,8 @@ type boundedResult struct {
 }
 
 var boundedSummaryRe = regexp.MustCompile(`(?m)^\s*(?:\S+: )?BOUNDED: (\{.*\})\s*$`)
-var boundedFailRe = regexp.MustCompile(`(?m)^\s*(?:\S+: )?BOUNDED-FAIL: ([^:]+): (.*)$`)
+var boundedFailRe = regexp.MustCompile(`(?m)^\s*(?:\S+: )?BOUNDED-FAIL: (\S+?): (.*)$`)
+var boundedFailAny = regexp.MustCompile(`(?m)BOUNDED-FAIL`)
 
 func runBounded(id, tier, repo, verif string, seed int) []boundedResult {
 	b, err := os.ReadFile(filepath.Join(verif, "bounded", id+".json"))
@@ -85,8 +86,15 @@ func runBounded(id, tier, repo, verif string, seed int) []boundedResult {
 			// the harness did not complete: that is a failure of the check itself
 			r.Failures = append(r.Failures, boundedFailure{"harness", "bounded harness produced no summary: " + truncate(strings.TrimSpace(txt), 1500)})
 		}
-		for _, m := range boundedFailRe.FindAllStringSubmatch(txt, 50) {
-			r.Failures = append(r.Failures, boundedFailure{strings.TrimSpace(m[1]), strings.TrimSpace(m[2])})
+		ms := boundedFailRe.FindAllStringSubmatch(txt, -1)
+		for i, m := range ms {
+			if i < 50 {
+				r.Failures = append(r.Failures, boundedFailure{strings.TrimSpace(m[1]), strings.TrimSpace(m[2])})
+			}
+		}
+		// a failure line the pattern above cannot parse must never be dropped silently
+		if n := len(boundedFailAny.FindAllStringIndex(txt, -1)); n != len(ms) {
+			r.Failures = append(r.Failures, boundedFailure{"harness", fmt.Sprintf("%d BOUNDED-FAIL lines of which only %d could be parsed", n, len(ms))})
 		}
 		out = append(out, r)
 	}
